@@ -85,6 +85,22 @@ func VerifyFunc(p *Program, key string, fn *ssa.Function, k *Contract) *FuncResu
 		args = append(args, Val{T: v})
 	}
 	fr.params = args
+	for _, pn := range k.Provenance {
+		for i, prm := range fn.Params {
+			if prm.Name() == pn && i < len(args) {
+				g := c.Fresh("prov."+pn, "Int")
+				c.Assert("(>= " + g + " 0)")
+				e.prov[args[i].T] = g
+				e.provGhost[g] = true
+				// the parameter is the file of that fidRef (when it has one)
+				if ft := e.fidRefType(); ft != nil {
+					if idx := fieldIndex(ft, "file"); idx >= 0 {
+						c.Assert(implies("(not (= "+g+" 0))", eq(sel(c.Get(e.entry, e.declField(ft, idx)), g), args[i].T)))
+					}
+				}
+			}
+		}
+	}
 	if len(fn.FreeVars) > 0 {
 		c.Unsupported("closure %s verified as root", fn)
 	}
@@ -454,4 +470,26 @@ func ConstGlobalResult(p *Program, cg *ConstGlobal) *FuncResult {
 	}
 	e.oblige("constglobal/"+cg.Name, "constglobal", cg.Props, "true", goal, "package variable "+cg.Name+" is only ever assigned "+cg.Value+" (by its initialiser) "+why, cg.Where)
 	return &FuncResult{Key: key, Obls: e.obls, Ctx: c}
+}
+
+func (e *Eval) fidRefType() types.Type {
+	if p, ok := e.p.pkgs["p9"]; ok {
+		if o := p.Pkg.Scope().Lookup("fidRef"); o != nil {
+			return o.Type()
+		}
+	}
+	return nil
+}
+
+func fieldIndex(t types.Type, name string) int {
+	st, ok := t.Underlying().(*types.Struct)
+	if !ok {
+		return -1
+	}
+	for i := 0; i < st.NumFields(); i++ {
+		if st.Field(i).Name() == name {
+			return i
+		}
+	}
+	return -1
 }
